@@ -12,9 +12,10 @@ import YaegiVerif.Spec.GoSelector
   by pointer, whose cells stay shared.
 
   The differences between the two executions are the documented decision points:
-    selector resolution (`selectY` / `Spec.select`), operand addressability, when a method value
-    copies its receiver, whether a struct put in an interface is copied, the static and dynamic
-    interface checks, assertion and type-switch matching.
+    selector resolution (`selectY` / `Spec.select`), operand addressability, how the receiver
+    reaches the method (`recvStorage`), when a method value copies its receiver, whether a struct
+    put in an interface is copied, the static and dynamic interface checks, assertion and
+    type-switch matching and the order in which the clauses are tested.
   Core Lean only.
 -/
 namespace YaegiVerif.MethodRun
@@ -264,7 +265,7 @@ structure Dyn where
   deriving Repr, Inhabited
 
 inductive Clo where
-  | meth (h : MHit) (inst : Inst)      -- method and the storage of its (embedded) receiver
+  | meth (h : MHit) (inst : Inst) (srcPtr : Bool)  -- method, the storage of its (embedded) receiver, was the receiver operand a pointer
   | fld (owner : Nat) (name : String)  -- a func() field
   deriving Repr, Inhabited
 
@@ -288,22 +289,84 @@ def bind (s : St) (x : String) (v : Val) : St := { s with env := (x, v) :: s.env
 def emit (s : St) (l : List String) : St := { s with out := s.out ++ [l] }
 def panic (s : St) : St := { s with panicked := true }
 
-/-- run the body of method `m` of type `owner` on the receiver storage `inst`
-    (a value receiver works on a copy) -/
-def runMeth (D : Decls) (owner : Nat) (m : Meth) (inst : Inst) (s : St) : St :=
-  let (r, h1) := if m.ptr then (inst, s.heap) else copyInst D owner inst s.heap
-  let h2 := match ownInt (fieldsOf D owner) 0 with
-    | some k => (match r.find? (fun pa => pa.1 == [k]) with | some pa => addTo h1 pa.2 1 | none => h1)
-    | none => h1
+/-! ### receiver passing
+
+  Go: a method with a value receiver works on a copy of the operand (of the pointee when the operand
+  is a pointer: `p.M()` is `(*p).M()`), a method with a pointer receiver on the operand's own storage
+  (`v.M()` is `(&v).M()`).
+  The interpreter (`genFunctionWrapper`, through which `getMethod` / `getMethodByName` route every
+  call of an interpreted method): the receiver operand delivered by `genValueRecv` — the operand
+  itself, or the last field of the index path of a promoted method, so a *pointer* exactly when the
+  operand is one (empty path) or the last field of the path is embedded by pointer — is bound to the
+  receiver slot of the new frame by one of three arms (`Facts.recvBind`). -/
+
+/-- the last field of a non-empty index path is embedded by pointer -/
+def lastPtr (D : Decls) : Nat → List Nat → Bool
+  | _, [] => false
+  | t, [i] => (match (fieldsOf D t)[i]? with | some f => f.kind == .embPtr | none => false)
+  | t, i :: j :: rest => (match (fieldsOf D t)[i]? with | some f => lastPtr D f.typ (j :: rest) | none => false)
+
+/-- is the receiver operand of `genValueRecv` a pointer (`sk == reflect.Ptr`) -/
+def srcIsPtr (D : Decls) (t : Nat) (opPtr : Bool) (path : List Nat) : Bool :=
+  if path.isEmpty then opPtr else lastPtr D t path
+
+/-- the arm of the receiver binding taken for a method with a value receiver -/
+def valueArm (F : Facts) (srcPtr : Bool) : SlotBind := if srcPtr then F.recvBind.ptrToVal else F.recvBind.same
+
+/-- the storage the body of the method works on, given the storage `inst` the operand designates.
+    Pointer receiver: that storage (the address is passed; whether the pointer itself is copied is
+    immaterial). Value receiver: a copy under Go's rules; under the interpreter's, what the arm of
+    the binding does — `dest.Set(x)` copies, `d[numRet] = x` makes the slot the caller's storage. -/
+def recvStorage (w : Who) (F : Facts) (D : Decls) (owner : Nat) (m : Meth) (srcPtr : Bool) (inst : Inst) (h : Heap) : Inst × Heap :=
+  if m.ptr then (inst, h) else
+  match w with
+  | .go => copyInst D owner inst h
+  | .yaegi =>
+    (match valueArm F srcPtr with
+     | .slot => (inst, h)
+     | _ => copyInst D owner inst h)
+
+/-- what a method body does to its receiver: a sequence of assignments to fields of the receiver
+    (`r.p = v`, `r.p += d`; `p` an index path to an int field) -/
+inductive Write where
+  | set (p : Path) (v : Int)
+  | add (p : Path) (d : Int)
+  deriving DecidableEq, Repr, Inhabited
+
+def applyWrite (r : Inst) (h : Heap) : Write → Heap
+  | .set p v => (match r.find? (fun pa => pa.1 == p) with | some pa => h.set pa.2 v | none => h)
+  | .add p d => (match r.find? (fun pa => pa.1 == p) with | some pa => addTo h pa.2 d | none => h)
+
+def runBody (r : Inst) (ws : List Write) (h : Heap) : Heap := ws.foldl (applyWrite r) h
+
+/-- the body every generated method has: `r.<first int field>++` -/
+def stdBody (D : Decls) (owner : Nat) : List Write :=
+  match ownInt (fieldsOf D owner) 0 with
+  | some k => [.add [k] 1]
+  | none => []
+
+/-- run method `m` of type `owner`, the operand designating the storage `inst`; `srcPtr`: the
+    receiver operand is a pointer -/
+def runMeth (w : Who) (F : Facts) (D : Decls) (owner : Nat) (m : Meth) (srcPtr : Bool) (inst : Inst) (s : St) : St :=
+  let (r, h1) := recvStorage w F D owner m srcPtr inst s.heap
+  let h2 := runBody r (stdBody D owner) h1
   emit { s with heap := h2 } ((typeName D owner ++ "." ++ m.name) :: values r h2)
 
-def runHit (D : Decls) (h : MHit) (recv : Inst) (s : St) : St := runMeth D h.owner h.meth (subInst recv h.path) s
+/-- `t`, `opPtr`: struct type of the operand and whether the operand is a pointer to it -/
+def runHit (w : Who) (F : Facts) (D : Decls) (h : MHit) (t : Nat) (opPtr : Bool) (recv : Inst) (s : St) : St :=
+  runMeth w F D h.owner h.meth (srcIsPtr D t opPtr h.path) (subInst recv h.path) s
 
-def runSel (D : Decls) (r : Sel) (recv : Inst) (s : St) : St :=
+def runSel (w : Who) (F : Facts) (D : Decls) (r : Sel) (t : Nat) (opPtr : Bool) (recv : Inst) (s : St) : St :=
   match r with
-  | .method h => runHit D h recv s
+  | .method h => runHit w F D h t opPtr recv s
   | .field fh => emit s [typeName D fh.owner ++ ".f." ++ fh.field.name]
   | _ => panic s
+
+/-- is the operand a pointer -/
+def recvIsPtr : Recv → Bool
+  | .addr _ => true
+  | .ptrvar _ => true
+  | _ => false
 
 /-- storage designated by a struct operand -/
 def recvInst (D : Decls) (s : St) : Recv → Option (Nat × Inst × St)
@@ -317,16 +380,16 @@ def recvInst (D : Decls) (s : St) : Recv → Option (Nat × Inst × St)
     operand declares for `m`. The interpreter fetches as many results as the interface method
     declares: a method that returns nothing where the interface promises a result makes the call
     fail after the method has run. -/
-def dynCall (w : Who) (D : Decls) (d : Option Dyn) (m : String) (isig : Nat) (s : St) : St :=
+def dynCall (w : Who) (F : Facts) (D : Decls) (d : Option Dyn) (m : String) (isig : Nat) (s : St) : St :=
   match d with
   | none => panic s
   | some d =>
     (match w with
      | .yaegi =>
        (match lookupMethodY D d.t m with
-        | some h => let s1 := runHit D h d.inst s; if isig == 1 && h.meth.sig == 0 then panic s1 else s1
+        | some h => let s1 := runHit w F D h d.t d.ptr d.inst s; if isig == 1 && h.meth.sig == 0 then panic s1 else s1
         | none => panic s)
-     | .go => (match select D d.t m with | .method h => runHit D h d.inst s | _ => panic s))
+     | .go => (match select D d.t m with | .method h => runHit w F D h d.t d.ptr d.inst s | _ => panic s))
 
 def sigOf (D : Decls) (ity : TyRef) (m : String) : Nat :=
   match (tyMethods D ity).find? (fun k => k.name == m) with
@@ -398,10 +461,10 @@ def execStmt (w : Who) (F : Facts) (D : Decls) (se : SEnv) (s : St) : Stmt → S
   | .call (.ifc i) m => (match look s i with
       | some (.ifc d) =>
         let isig := match slook se i with | some (.ifc ity) => sigOf D ity m | _ => 0
-        dynCall w D d m isig s
+        dynCall w F D d m isig s
       | _ => panic s)     -- includes the zero value of a failed assertion
   | .call r m => (match recvInst D s r with
-      | some (t, i, s1) => runSel D (sel w F D t m) i s1
+      | some (t, i, s1) => runSel w F D (sel w F D t m) t (recvIsPtr r) i s1
       | none => panic s)
   | .mval x r m => (match recvInst D s r with
       | some (t, i, s1) =>
@@ -411,13 +474,13 @@ def execStmt (w : Who) (F : Facts) (D : Decls) (se : SEnv) (s : St) : Stmt → S
            -- Go: a value receiver is copied when the method value is evaluated
            if w == .go && !h.meth.ptr then
              let (c, hp) := copyInst D h.owner sub s1.heap
-             bind { s1 with heap := hp } x (.fn (.meth ⟨h.owner, [], h.meth⟩ c))
-           else bind s1 x (.fn (.meth ⟨h.owner, [], h.meth⟩ sub))
+             bind { s1 with heap := hp } x (.fn (.meth ⟨h.owner, [], h.meth⟩ c false))
+           else bind s1 x (.fn (.meth ⟨h.owner, [], h.meth⟩ sub (srcIsPtr D t (recvIsPtr r) h.path)))
          | .field fh => bind s1 x (.fn (.fld fh.owner fh.field.name))
          | _ => panic s1)
       | none => panic s)
   | .callf x => (match look s x with
-      | some (.fn (.meth h i)) => runHit D h i s
+      | some (.fn (.meth h i sp)) => runHit w F D h h.owner sp i s
       | some (.fn (.fld o n)) => emit s [typeName D o ++ ".f." ++ n]
       | _ => panic s)
   | .mexpr t isPtr m y => (match look s y with
@@ -426,17 +489,18 @@ def execStmt (w : Who) (F : Facts) (D : Decls) (se : SEnv) (s : St) : Stmt → S
          | .go =>
            (match select D t m with
             | .method h =>
-              if isPtr then runHit D h i s
-              else let (c, hp) := copyInst D t i s.heap; runHit D h c { s with heap := hp }
+              if isPtr then runHit .go F D h t true i s
+              else let (c, hp) := copyInst D t i s.heap; runHit .go F D h t false c { s with heap := hp }
             | _ => panic s)
          | .yaegi =>
-           -- the receiver argument is passed as it is to the method found by lookupMethod: this
-           -- works only for a method declared on the type itself with the same kind of receiver
+           -- the receiver argument is passed as it is (an ordinary argument: `d[i].Set(arg)`, no
+           -- receiver binding) to the method found by lookupMethod: this works only for a method
+           -- declared on the type itself with the same kind of receiver
            (match selectY F D t m with
             | .method h =>
               if h.path.isEmpty && h.meth.ptr == isPtr then
-                (if isPtr then runHit D h i s
-                 else let (c, hp) := copyInst D t i s.heap; runHit D h c { s with heap := hp })
+                (if isPtr then runHit .go F D h t true i s
+                 else let (c, hp) := copyInst D t i s.heap; runHit .go F D h t false c { s with heap := hp })
               else panic s
             | _ => panic s))
       | _ => panic s)
@@ -491,9 +555,9 @@ def execStmt (w : Who) (F : Facts) (D : Decls) (se : SEnv) (s : St) : Stmt → S
           let s3 := bind s2 x v
           if m == "" || (two && !b) then s3 else
           (match v with
-           | .strct t i => runSel D (sel w F D t m) i s3
-           | .ptr t i => runSel D (sel w F D t m) i s3
-           | .ifc dd => dynCall w D dd m (sigOf D ty m) s3
+           | .strct t i => runSel w F D (sel w F D t m) t false i s3
+           | .ptr t i => runSel w F D (sel w F D t m) t true i s3
+           | .ifc dd => dynCall w F D dd m (sigOf D ty m) s3
            | _ => panic s3))
      | _ => panic s)
   | .tswitch y bindForm cs =>
@@ -502,7 +566,7 @@ def execStmt (w : Who) (F : Facts) (D : Decls) (se : SEnv) (s : St) : Stmt → S
      | some (.ifc d) =>
        let r := match w with
          | .go => typeSwitchG D (dynT d) cs
-         | .yaegi => typeSwitchY F.defaultSwap (matchCaseY D typed bindForm d) cs
+         | .yaegi => typeSwitchY F.defaultSwap F.clauseChain (matchCaseY D typed bindForm d) cs
        (match r with
         | some k => emit s ["case", toString k]
         | none => s)
